@@ -274,7 +274,7 @@ def stage(chk):
     from mopidy import exceptions
     from mopidy.internal import validation
 
-    n = 2500 if chk.tier == "quick" else 30000
+    n = 2500 if chk.tier == "quick" else 15000
     rng = vlib.Rng(chk.seed, "C09-validation")
     rows = []
     for _ in range(n):
@@ -320,7 +320,7 @@ def answers_stage(chk):
     from mopidy import exceptions
     from mopidy.internal import validation
 
-    n = 1500 if chk.tier == "quick" else 15000
+    n = 1500 if chk.tier == "quick" else 8000
     rng = vlib.Rng(chk.seed, "C09-answers")
     rows = []
     methods = ["lookup_many", "get_images", "search", "browse", "root_directory", "get_distinct", "as_list",
